@@ -177,9 +177,91 @@ def _worker(task):
         first2, out2 = _run_cli(["/usr/bin/z3", "-T:%d" % max(1, cli_ms // 1000)], text, cli_ms / 1000.0)
         if first2 == "unsat":
             return idx, ("PROVED", "z3-4.8.12", time.time() - t2, None, "z3: unknown (%s)" % reason)
+        if os.environ.get("PYVC_DUMP_UNKNOWN"):
+            with open(os.path.join(os.environ["PYVC_DUMP_UNKNOWN"], "unknown_%d.smt2" % idx), "w") as f:
+                f.write(text)
+        fs = _finite_scope(text, n_inputs, cli_ms)
+        if fs is not None:
+            return idx, fs
         return idx, ("UNKNOWN", "z3+cvc5+z3-4.8", time.time() - t0, None,
                      "z3: unknown (%s); cvc5: %s; z3-4.8.12: %s" % (reason, first or out[:80], first2 or out2[:80]))
     return idx, ("UNKNOWN", ver, dt, None, "unknown (%s)" % reason)
+
+
+def _finite_scope(text, n_inputs, budget_ms, scopes=(4, 6)):
+    """Refutation only.  The negated obligation is re-checked with every uninterpreted sort replaced by an
+    enumeration of k elements and every quantifier over those sorts expanded into a finite conjunction/disjunction.
+    An uninterpreted sort may be interpreted by any non-empty set, so a model of the k-element instance is a model
+    of the original query: `sat` is a genuine counter-model.  `unsat` or `unknown` here says nothing about the
+    unrestricted obligation and is discarded."""
+    import itertools
+    import re
+    if not re.search(r"\(declare-sort\s+(\|[^|]*\||[^\s()]+)\s+0\)", text):
+        return None
+
+    class TooBig(Exception):
+        pass
+
+    for k in scopes:
+        def rep(m):
+            srt = m.group(1)
+            base = srt.strip("|")
+            return "(declare-datatypes ((%s 0)) ((%s)))" % (srt, " ".join("(|%s_e%d|)" % (base, j) for j in range(k)))
+        q = re.sub(r"\(declare-sort\s+(\|[^|]*\||[^\s()]+)\s+0\)", rep, text)
+        t0 = time.time()
+        ctx = z3.Context()
+        s0 = z3.Solver(ctx=ctx)
+        cache = {}
+        budget = [200000]
+
+        def consts(srt):
+            return [srt.constructor(i)() for i in range(srt.num_constructors())]
+
+        def expand(e):
+            key = e.get_id()
+            if key in cache:
+                return cache[key][1]
+            budget[0] -= 1
+            if budget[0] < 0 or time.time() - t0 > budget_ms / 1000.0:
+                raise TooBig()
+            if z3.is_quantifier(e):
+                srts = [e.var_sort(i) for i in range(e.num_vars())]
+                if all(isinstance(x, z3.DatatypeSortRef) for x in srts):
+                    body = e.body()
+                    outs = [expand(z3.substitute_vars(body, *reversed(combo)))
+                            for combo in itertools.product(*[consts(x) for x in srts])]
+                    r = z3.And(outs) if e.is_forall() else z3.Or(outs)
+                else:
+                    r = e
+            elif z3.is_app(e) and e.num_args() > 0:
+                ch = e.children()
+                nch = [expand(c) for c in ch]
+                pairs = [(a, b) for a, b in zip(ch, nch) if not a.eq(b)]
+                r = z3.substitute(e, *pairs) if pairs else e
+            else:
+                r = e
+            cache[key] = (e, r)
+            return r
+        try:
+            s0.from_string(q)
+            s = z3.Solver(ctx=ctx)
+            s.set("timeout", max(2000, budget_ms // len(scopes)))
+            for a in s0.assertions():
+                s.add(expand(a))
+            r = s.check()
+        except (z3.Z3Exception, TooBig, RecursionError):
+            return None
+        if r == z3.sat:
+            m = s.model()
+            vals = {}
+            for d in m.decls():
+                nme = d.name()
+                if nme.startswith("pyvc_in_"):
+                    vals[int(nme[8:])] = model_value(m, d())
+            return ("REFUTED", "z3-%s finite-scope(%d)" % (z3.get_version_string(), k), time.time() - t0,
+                    [vals.get(i) for i in range(n_inputs)],
+                    "sat with every uninterpreted sort instantiated by %d elements (quantifiers expanded)" % k)
+    return None
 
 
 def discharge(obligations, timeout_ms=30000, use_cli=True, jobs=None):
